@@ -203,6 +203,9 @@ def gen(rng, tier, i):
     if oc in ("bind", "badcmd"):
         # rewrite the command byte of the request
         cmd = 2 if oc == "bind" else rng.choice([0, 4, 9, 255] + ([3] if lk == "socks4" else []))   # SOCKS4 has no command 3
+        badver = oc == "badcmd" and lk in ("socks5", "socks5p") and rng.random() < 0.4
+        if badver:
+            cmd = 1    # a CONNECT request whose version byte is not 5 although SOCKS5 was negotiated: not a request this listener can serve
         last_send = [o for o in hs if o["op"] == "send"][-1]
         for o in [last_send]:
             if o["op"] == "send":
@@ -211,6 +214,8 @@ def gen(rng, tier, i):
                     j = b.rfind(bytes([5, 1, 0]))
                     if j >= 0:
                         b[j + 1] = cmd
+                        if oc == "badcmd" and badver:
+                            b[j] = rng.choice([4, 6, 7, 9, 0, 255])
                 else:
                     b[1] = cmd
                 o["hex"] = bytes(b).hex()
